@@ -621,8 +621,10 @@ def isTestSupport (f : Fn) : Bool := f.path.getLast? == some "test.go" || f.path
 
 /-- files outside `crypto/` that are allowed to handle a private key, with the reason -/
 def allowedOutside : List String :=
-  [ "core/server_config.go"     -- the node's TLS certificate/key file (tls.LoadX509KeyPair), not a key store key
-  , "http/user/session.go" ]    -- session-bound user wallet key (crypto.GenerateJWK), documented low-assurance use
+  [ "core/server_config.go"        -- the node's TLS certificate/key file (tls.LoadX509KeyPair), not a key store key
+  , "http/user/session.go"         -- session-bound user wallet key (crypto.GenerateJWK): kept in the session store in
+                                   -- plain text BY DESIGN ("low-assurance"), never a key store key
+  , "auth/api/iam/openid4vp.go" ]  -- signs the user's presentation with that session key (MemoryJWTSigner)
 
 /-- the key store engine: the files whose exported functions are the node-internal API to private keys -/
 def engineFiles : List String :=
@@ -635,7 +637,7 @@ def safeResults : List String :=
 
 /-- **api_surface_by_kid** (a statement about the regenerated inventory; the go/ast extractor is trusted).
     (1) every function that obtains, generates, encodes or mentions a private-key typed value lies under `crypto/`,
-        is test support, or is one of the two listed exceptions;
+        is test support, or is one of the three listed exceptions (TLS key file, session-bound user wallet key);
     (2) every EXPORTED function of the key store engine in that set returns only public-key / signature /
         ciphertext-plaintext / error types — except `GenerateJWK` (in-memory session keys, never key store keys);
     (3) the only functions that call the storage SPI's `GetPrivateKey` (or the unexported `getPrivateKey`) outside
